@@ -3,6 +3,13 @@
 (* numbers in the floor form of module BuiltinsRat (|x| < 2^52, at most 28    *)
 (* fractional bits).  Each contract is the sentence of the property, written  *)
 (* on the difference D = r - x (H = comparison with half-integers c/2).       *)
+(* Arguments with more than 28 fractional bits (a hair away from an integer   *)
+(* or a half) reach the contracts whose result is an INTEGER through the      *)
+(* class-preserving projection of the harness (toFloorFormCoarse): floor(x)   *)
+(* and the sign are kept, the fraction is replaced by one of 28 bits on the   *)
+(* same side of 0 and of 1/2.  FloorRel .. RoundRel read nothing else of x    *)
+(* when r is integral: Twice(D) = 2*dj*d - 2*f compared with c*d, c in -2..2, *)
+(* depends on dj and on whether f/d is 0, below, at or above 1/2.             *)
 EXTENDS BuiltinsRat, FiniteSets
 
 \* floor(x) <= x < floor(x)+1              <=>  -1 < r - x <= 0, r integral
